@@ -293,3 +293,85 @@ def end_to_end(U, chunk):
 
 end_to_end.enumerate_inputs = _e2e_inputs
 end_to_end.conc_timeout = 600     # one batch = 50 decompilations + javac + java; a looping decompiled method costs 40 s + 15 s
+
+
+# ------------------------------------------------------------------------------------------------
+# Bounded: hand-written scenario programs for shapes the random generator does not (or hardly ever) build: a throwing division
+# below a non-throwing operator whose single use lies behind a branch, an expression defined in front of a loop whose operand
+# the loop changes, uses behind switches ...  Each program is run on the full grid of a small argument pool.
+def _scenarios():
+    B = lambda name, d, a, b: ("bin", name, False, d, a, b)
+    out = {}
+    # locals v0..v2, parameters v3, v4, v5
+    out["neg_of_div_behind_branch"] = (3, [B("div", 0, 3, 4), ("un", "neg", False, 0, 0), ("ifz", "le", 5, "L"), ("ret", 5), ("label", "L"), ("ret", 0)])
+    out["not_of_rem_behind_branch"] = (3, [B("rem", 0, 3, 4), ("un", "not", False, 0, 0), ("ifz", "ne", 5, "L"), ("ret", 5), ("label", "L"), ("ret", 0)])
+    out["cast_of_div_behind_branch"] = (3, [B("div", 0, 3, 4), ("cast", "i2b", 0, 0), ("ifz", "gt", 5, "L"), ("ret", 5), ("label", "L"), ("ret", 0)])
+    out["sum_with_div_behind_branch"] = (3, [B("div", 0, 3, 4), ("lit8", "add", 0, 0, 1), ("ifz", "lt", 5, "L"), ("ret", 5), ("label", "L"), ("ret", 0)])
+    out["div_behind_two_branches"] = (3, [B("div", 0, 3, 4), ("un", "neg", False, 0, 0), ("ifz", "le", 5, "L"), ("ifz", "eq", 3, "M"), ("ret", 5),
+                                          ("label", "M"), ("ret", 4), ("label", "L"), ("ret", 0)])
+    out["lit_div_behind_branch"] = (3, [("lit8", "rsub", 1, 4, 0), ("lit8", "div", 0, 3, 0) if False else B("div", 0, 3, 1), ("un", "neg", False, 0, 0),
+                                        ("ifz", "le", 5, "L"), ("ret", 5), ("label", "L"), ("ret", 0)])
+    # locals v0..v2, parameters v3, v4
+    out["product_before_loop_operand_changes"] = (2, [("lit8", "add", 1, 4, 1), ("const", 2, 0), B("mul", 0, 3, 1), ("label", "LOOP"),
+                                                      ("bin2", "add", False, 2, 0), ("lit8", "add", 1, 1, 1), ("if", "lt", 1, 3, "LOOP"), ("ret", 2)])
+    out["sum_before_while_loop_operand_changes"] = (2, [("lit8", "add", 1, 4, 0), ("const", 2, 0), B("add", 0, 3, 1), ("label", "TOP"),
+                                                        ("if", "ge", 1, 3, "END"), ("bin2", "xor", False, 2, 0), ("lit8", "add", 1, 1, 2),
+                                                        ("goto", "TOP"), ("label", "END"), ("ret", 2)])
+    out["shift_before_loop_operand_changes"] = (2, [("lit8", "and", 1, 4, 7), ("const", 2, 1), B("shl", 0, 3, 1), ("label", "LOOP"),
+                                                    ("bin2", "add", False, 2, 0), ("lit8", "add", 1, 1, 1), ("lit8", "rsub", 0 + 0, 1, 9) if False else ("label", "X"),
+                                                    ("if", "lt", 1, 3, "LOOP"), ("ret", 2)])
+    out["expression_used_after_loop"] = (2, [("lit8", "add", 1, 4, 1), ("const", 2, 0), B("mul", 0, 3, 1), ("label", "LOOP"), ("lit8", "add", 2, 2, 3),
+                                             ("lit8", "add", 1, 1, 1), ("if", "lt", 1, 3, "LOOP"), ("bin2", "add", False, 2, 0), ("ret", 2)])
+    out["div_before_loop_used_inside"] = (2, [("const", 1, 0), ("const", 2, 0), B("div", 0, 3, 4), ("label", "LOOP"), ("lit8", "add", 1, 1, 1),
+                                              ("if", "ge", 1, 3, "END"), ("bin2", "add", False, 2, 0), ("goto", "LOOP"), ("label", "END"), ("ret", 2)])
+    return out
+
+
+SCEN_POOL = [-7, -1, 0, 1, 2, 5]
+
+
+@unit("C21", covers=E2E_COVERS, level="bounded", samples=1, timeout_ms=900000,
+      note="hand-written scenario programs (throwing division under neg / not / cast / add whose single use lies behind one or two "
+           "branches; expressions defined in front of do-while / while loops whose operand the loop changes; uses after the loop), "
+           "each run on the full grid of the argument pool {-7, -1, 0, 1, 2, 5}: independent DEX writer -> real DecompilerDAD -> javac -> java "
+           "vs the reference interpreter")
+def scenarios(U):
+    import itertools
+    for f in E2E_FILES:
+        U.mod(f)
+    dexm = U.mod("androguard/core/dex/__init__.py")
+    anam = U.mod("androguard/core/analysis/analysis.py")
+    decm = U.mod("androguard/decompiler/decompiler.py")
+    sources, calls, expected = {}, {}, {}
+    for name, (nparams, code) in sorted(_scenarios().items()):
+        code = [i for i in code if i != ("label", "X")]
+        cname = "S_" + name
+        params = [3 + i for i in range(nparams)]
+        cd = dict(registers=3 + nparams, ins=nparams, outs=0, insns=G.assemble(code))
+        cls = dict(name="Lp/%s;" % cname, access=1, super="Ljava/lang/Object;", interfaces=[], source=cname + ".java", sfields=[], ifields=[],
+                   dmethods=[("m0", "I", ["I"] * nparams, 0x9, cd)], vmethods=[])
+        o = U.call(lambda: decm.DecompilerDAD(*(lambda dx: (dx, (lambda an: (an.create_xref(), an)[1])(anam.Analysis(dx))))(dexm.DEX(DW.write([cls])))))
+        U.ensures("the decompiler does not raise", o.ok, scenario=name, exc=repr(o.exc)[:200])
+        if not o.ok:
+            continue
+        dad = o.value
+        src = dad.get_source_class(dad.vm.get_classes()[0])
+        sources[cname], calls[cname] = src, []
+        for n, a in enumerate(itertools.product(SCEN_POOL, repeat=nparams)):
+            ref = G.interpret(code, dict(zip(params, a)))
+            if ref[0] == "timeout":
+                continue
+            key = "%s#%d" % (cname, n)
+            calls[cname].append((key, "m0", list(a), False))
+            expected[key] = (cname, list(a), "exc" if ref[0] == "exc" else str(ref[1]))
+    errors, results, log = JH.compile_and_run(sources, calls)
+    for cname in sorted(sources):
+        U.ensures("the decompiled source is accepted by javac", cname not in errors, scenario=cname, errors=errors.get(cname, [])[:3],
+                  source=sources[cname][:1200])
+        wrong = [(a, want, results.get(k)) for k, (c, a, want) in sorted(expected.items()) if c == cname and cname not in errors and results.get(k) != want]
+        U.ensures("the compiled decompiler output returns the value (or throws the ArithmeticException) the bytecode does",
+                  not wrong, scenario=cname, wrong=wrong[:4], source=sources[cname][:1200])
+
+
+scenarios.enumerate_inputs = lambda tier, **p: iter([{}])
+scenarios.conc_timeout = 600
